@@ -215,8 +215,20 @@ def nfa_to_dfa_def(n):
                 initial_state=n["initial_state"], final_states=set(n["final_states"]), allow_partial=True)
 
 
+def known_temporary(ctx):
+    """Open finding: queries decorated with cached_method (isempty, isfinite, cardinality, minimum/maximum_word_length)
+    raise RuntimeError when first called on an automaton that is not bound to a name: the third-party cached_method
+    package keeps only a weak reference to the instance.  (Every other call in this harness binds the object first.)"""
+    from automata.fa.dfa import DFA
+    a = DFA.from_prefix({"a", "b"}, "ab")
+    out = outcome(lambda: (a & ~a).isempty())
+    ctx.open_finding("cached_query_on_temporary", out[:2] != ("ok", True),
+                     f"(a & ~a).isempty() on an unnamed result gives {out}, expected True")
+
+
 def run(ctx):
     ctx.rule = RULE
+    known_temporary(ctx)
     rng = ctx.rng
     for i in range(ctx.n(350, 6000)):
         sigma = gen.rand_alphabet(rng)
